@@ -11,6 +11,7 @@ import os
 import xml.etree.ElementTree as ET
 
 TNS = 'urn:t'
+TNS2 = 'urn:t2'                # twin target namespace (variant q2): same prefix, same default-namespace spelling
 XS = 'http://www.w3.org/2001/XMLSchema'
 BAD = 'b@d'                  # not a literal of any non-string type of the catalogue
 UNKNOWN = 'zz'               # local name of the inserted child / attribute
@@ -57,9 +58,13 @@ def G(name, typ, subst=None, abstract=False, extra=''):
 
 
 class Template:
-    def __init__(self, name, globals_, types=None, roots=('root',), variants=('n', 'q'), note=''):
+    def __init__(self, name, globals_, types=None, roots=('root',), variants=('n', 'q'), note='', identities=()):
         self.name, self.globals, self.types, self.roots = name, list(globals_), dict(types or {}), tuple(roots)
         self.variants, self.note = tuple(variants), note
+        # identity constraints the check may judge: {'name', 'owner' (element name), 'target' (child name the
+        # selector reaches; the fields are '.' or an attribute of it)}; templates with such metadata also get
+        # 'dup' faults (a target repeats the value of its preceding sibling) at every size
+        self.identities = tuple(identities)
         self.decls = {}
         self._number()
 
@@ -165,8 +170,9 @@ def render_xsd(tpl, variant):
 
     head = '<xs:schema xmlns:xs="%s"' % XS
     if variant != 'n':
-        head += ' targetNamespace="%s" xmlns:t="%s"' % (TNS, TNS)
-        if variant == 'q':
+        ns = TNS2 if variant == 'q2' else TNS
+        head += ' targetNamespace="%s" xmlns:t="%s"' % (ns, ns)
+        if variant in ('q', 'q2'):
             head += ' elementFormDefault="qualified"'
     out = [head + '>']
     for g in tpl.globals:
@@ -309,6 +315,20 @@ def preorder(node):
         yield from preorder(k)
 
 
+def dup_faults(root, targets):
+    """identity faults: a target element takes the value (text and first attribute) of its preceding
+    same-named sibling; descriptors ('dup', pre-order index)"""
+    nodes = list(preorder(root))
+    out = []
+    for p in nodes:
+        prev = {}
+        for k in p.kids:
+            if k.name in targets and k.name in prev:
+                out.append(('dup', nodes.index(k)))
+            prev[k.name] = k
+    return out
+
+
 def faults(root):
     """single-fault descriptors (kind, pre-order index) applicable to the tree"""
     out = []
@@ -346,12 +366,21 @@ def apply_fault(root, fault):
         for p in nodes:
             if n in p.kids:
                 p.kids.remove(n)
+    elif kind == 'dup':
+        for p in nodes:
+            if n in p.kids:
+                prev = [k for k in p.kids[:p.kids.index(n)] if k.name == n.name][-1]
+                n.text = prev.text
+                if n.attrs and prev.attrs:
+                    n.attrs[0] = (n.attrs[0][0], prev.attrs[0][1], n.attrs[0][2])
     return new
 
 
 def node_ns(n, variant):
     if variant == 'n':
         return ''
+    if variant == 'q2':
+        return TNS2
     if variant == 'q' or n.glob:
         return TNS
     return ''
@@ -366,7 +395,8 @@ def serialise(root, variant, form):
     def out(n, top):
         s = '<' + tag(n)
         if top and variant != 'n':
-            s += ' xmlns:t="%s"' % TNS if form == 'pre' else ' xmlns="%s"' % TNS
+            ns = TNS2 if variant == 'q2' else TNS
+            s += ' xmlns:t="%s"' % ns if form == 'pre' else ' xmlns="%s"' % ns
         for a, v, _ in n.attrs:
             s += ' %s="%s"' % (a, v)
         if not n.kids and n.text is None:
@@ -529,6 +559,14 @@ def templates():
         Template('mix', [G('root', C(SEQ(E('p', C(SEQ(E('v', 'int', 1, 2), R('g', 0, 1)))), E('q', C(SEQ(E('v', 'date'))), 0, 1),
                                          R('g', 0, 1)))), G('g', 'str')],
                  variants=('u',), note='target namespace with unqualified local elements'),
+        Template('uniq', [G('root', C(SEQ(E('g', C(SEQ(E('item', 'int', 1, 2))), 1, 3, extra=(
+            '<xs:unique name="u"><xs:selector xpath="{p}item"/><xs:field xpath="."/></xs:unique>')))))],
+                 identities=[{'name': 'u', 'owner': 'g', 'target': 'item'}],
+                 note='xs:unique owned by g (up to 3 instances) over its item children'),
+        Template('keyd', [G('root', C(SEQ(E('g', C(SEQ(E('k', C(attrs=[('id', 'int', True)]), 1, 2))), 1, 3, extra=(
+            '<xs:key name="ky"><xs:selector xpath="{p}k"/><xs:field xpath="@id"/></xs:key>')))))],
+                 identities=[{'name': 'ky', 'owner': 'g', 'target': 'k'}],
+                 note='xs:key owned by g (up to 3 instances) over the id attribute of its k children'),
     ]
 
 
